@@ -277,6 +277,7 @@ def patch_overlay_from_diff(patch_path, root=None):
     import subprocess
     import tempfile
     root = root or REPO_ROOT
+    patch_path = os.path.abspath(patch_path)
     files = re.findall(r'^\+\+\+ b/(\S+)', open(patch_path).read(), flags=re.M)
     tmp = tempfile.mkdtemp(prefix='wnst-')
     try:
